@@ -252,6 +252,8 @@ func runSyncer(prop, tier string, r *rng) {
 		burstCase(prop, []int{15, 40, 41, 42})
 		burstCase(prop, nil) // the tail-above-head scenarios
 		startWindowCase(prop)
+		forkRaceCase(prop, 11)
+		forkRaceCase(prop, 8)
 	}
 	if prop == "C07" || prop == "C03" {
 		restartSyncCase(prop)
@@ -848,6 +850,86 @@ func addRaceCase(prop string) {
 		steps = "-"
 	}
 	emit("%s kind=addrace => start=ok missed=%s verdicts=%s,%s,%s,%s,%s newest=13 %s", prop, steps, v7, v10, v11, v12, v13, run.observe())
+	_ = run.s.Stop(ctx)
+	c2, cancel3 := context.WithTimeout(ctx, time.Second)
+	_ = run.st.Stop(c2)
+	cancel3()
+}
+
+// forkRaceCase: an equivocating header F(h) - a second valid child of the real header h-1 - arrives over gossip while the
+// store is far below it: it soft-fails and goes into bifurcation, whose first getter request is held. Meanwhile the real
+// headers 2..h+1 arrive over gossip. Then the getter answers. Whatever wins, at quiescence the Store is ONE chain: every
+// stored header names the stored header below it as its parent.
+func forkRaceCase(prop string, h int) {
+	ctx := context.Background()
+	vhdr.TrustRange.Store(4)
+	defer vhdr.TrustRange.Store(0)
+	run := newSyncRun(1)
+	sctx, cancel := context.WithTimeout(ctx, 3*time.Second)
+	err := run.s.Start(sctx)
+	cancel()
+	if err != nil {
+		emit("%s kind=forkrace h=%d => start=err", prop, h)
+		return
+	}
+	run.quiesce()
+	c := run.chain[h-1]
+	fork := &vhdr.Header{Chain: c.Chain, H: c.H, T: c.T + 1, Prev: c.Prev, Salt: c.Salt, VK: c.VK}
+	gate := make(chan struct{})
+	run.g.hGate = gate
+	l0 := run.g.logLen()
+	fres := make(chan string, 1)
+	verdict := func(hd *vhdr.Header) string {
+		vctx, cancelV := context.WithTimeout(ctx, 8*time.Second)
+		defer cancelV()
+		if err := run.sub.verifier(vctx, hd); err != nil {
+			return "refuse"
+		}
+		return "accept"
+	}
+	go func() { fres <- verdict(fork) }()
+	inBif := false
+	for k := 0; k < 1500 && !inBif; k++ {
+		time.Sleep(time.Millisecond)
+		inBif = run.g.logLen() > l0
+	}
+	var wg sync.WaitGroup
+	for x := 2; x <= h+1; x++ {
+		wg.Add(1)
+		go func(hd *vhdr.Header) { defer wg.Done(); _ = verdict(hd) }(run.chain[x-1])
+		time.Sleep(3 * time.Millisecond) // keep the arrival order
+	}
+	time.Sleep(100 * time.Millisecond)
+	close(gate)
+	fv := "hang"
+	select {
+	case fv = <-fres:
+	case <-time.After(9 * time.Second):
+	}
+	wg.Wait()
+	run.quiesce()
+	// one chain?
+	linked, forkStored := 1, "absent"
+	hd, _ := run.st.Head(ctx)
+	tl, _ := run.st.Tail(ctx)
+	if hd != nil && tl != nil {
+		var below *vhdr.Header
+		for x := tl.H; x <= hd.H; x++ {
+			cur, err := run.st.GetByHeight(cancelled, x)
+			if err != nil || cur == nil {
+				linked = 0
+				break
+			}
+			if below != nil && string(cur.Prev) != string(below.Hash()) {
+				linked = 0
+			}
+			if x == uint64(h) && sameHeader(cur, fork) {
+				forkStored = "stored"
+			}
+			below = cur
+		}
+	}
+	emit("%s kind=forkrace h=%d => start=ok inbif=%d fork=%s forkstored=%s linked=%d %s", prop, h, b2i(inBif), fv, forkStored, linked, run.observe())
 	_ = run.s.Stop(ctx)
 	c2, cancel3 := context.WithTimeout(ctx, time.Second)
 	_ = run.st.Stop(c2)
